@@ -1,5 +1,5 @@
 """Property -> harnesses registry."""
-import h_doc, h_c13
+import h_doc, h_c13, h_lib
 
 def doc(prog, tier):
     return h_doc.DocHarness(prog, tier)
@@ -35,7 +35,19 @@ COMMON = [
 KERNEL_SPEC = {'make': lambda prog, tier: h_c13.KernelHarness(prog, tier), 'time_limit': {'quick': 300, 'thorough': 1800}}
 LINESTARTS_SPEC = {'make': lambda prog, tier: h_c13.LineStartsHarness(prog, tier), 'time_limit': {'quick': 120, 'thorough': 600}}
 
+def lib(prog, tier):
+    return h_lib.LibHarness(prog, tier)
+LIB_SPEC = {'make': lib, 'time_limit': {'quick': 420, 'thorough': 2400}}
+
 PROPS = {
+    'C04': {'specs': [LIB_SPEC], 'notes': COMMON + [
+        'the Markdown text parser is the stubbed environment: MarkdownReader::document returns the Document chosen for a content token, so '
+        '"fresh import of the final texts" is well defined; everything else (import, update_key, delete_branch, index, paths, lookups) is real MIR',
+        'observations compared after every step, node ids renamed to (note, pre-order ordinal): block / inline backlinks of every key incl. a missing one, '
+        'titles, collected trees, outline paths, block at a line (symbolic line)']},
+    'C05': {'specs': [LIB_SPEC], 'notes': COMMON + [
+        'oracle: independent scan of the input Documents with the statement\'s resolution rule (relative to the linking note\'s directory, .md ignored, '
+        'external URLs excluded); notes in the library root only (sub-directory resolution is string/path code, see not-claimed C15)']},
     'C13': {'specs': [KERNEL_SPEC, LINESTARTS_SPEC], 'notes': COMMON + [
         'claimed for the conversion kernels: to_line_range / to_inline_range over every sorted line table (symbolic 64-bit entries) and byte range; '
         'line_starts over strings given by their line structure (symbolic line lengths, LF / CRLF / missing final newline), std str::lines / '
@@ -44,5 +56,5 @@ PROPS = {
     'C01': {'specs': DOC_ALL, 'notes': COMMON + ['claimed at block level: every block/token of the input appears once, in order, in the same container, same kind']},
     'C03': {'specs': DOC_ALL, 'notes': COMMON + ['claimed for blocks -> graph -> tree -> projection: every compiler-emitted panic edge / unwrap / expect / explicit panic reachable within the bounds is a violation']},
     'C07': {'specs': DOC_ALL, 'notes': COMMON + ['heading levels are symbolic u8 in 1..6; laws: order kept, emitted outline well nested, well-nested input keeps its levels, blocks stay under the nearest preceding heading']},
-    'C20': {'specs': DOC_ALL, 'notes': COMMON + ['representation invariant checked on every arena produced within the bounds (establish step)']},
+    'C20': {'specs': DOC_ALL + [LIB_SPEC], 'notes': COMMON + ['representation invariant checked on every arena produced within the bounds (establish step) and after every update_key step of the library harness (preserve step: RI, ids never reused, other notes untouched)']},
 }
